@@ -39,7 +39,7 @@ NoWitness == ~(Terminal /\ ~Durable /\ used = WantUsed /\ PrintT(ToJson(Summary)
 \*           RSummon(r2) is disabled - SummonSwamp must wait in WaitForGracefulClose
 \*   drain:  a Destroy stands before its vigil drain while another request holds a vigil: RDDrain is disabled
 ProbeSummon == /\ pc["r2"] = "idle" /\ pc["r1"] = "d_drain" /\ map # 0 /\ I[map].closing = 1 /\ ~I[map].cancelled
-ProbeDrain  == /\ pc["r1"] = "d_drain" /\ I[ref["r1"]].vigils > 0 /\ pc["r2"] = "op" /\ ref["r2"] = ref["r1"]
+ProbeDrain  == /\ pc["r1"] = "d_drain" /\ I[ref["r1"]].vigils > 0 /\ pc["r2"] = "op" /\ ref["r2"] = ref["r1"] /\ op["r2"].op = "set"
 NoProbeSummon == ~(ProbeSummon /\ PrintT(ToJson(Summary)))
 NoProbeDrain  == ~(ProbeDrain /\ PrintT(ToJson(Summary)))
 
